@@ -145,19 +145,31 @@ func c14r2(c *core.Ctx) {
 	var witness core.Path
 	okEnum := core.EnumPaths(f, 3, 200000, func(pa core.Path) {
 		total++
-		pending := false // an id was stored and the counter not yet incremented
+		// Counter values are tracked by generation: every +1 store starts a new generation; an id must be a load of a generation
+		// that no other id has taken, and the generation an id took must be left behind by a +1 before the path ends. This accepts
+		// both  x.ID = count; count++  and  id := count; count++; x.ID = id  (a post-increment helper, inlined or not).
+		gen := 0
+		genOf := map[ssa.Value]int{}
+		taken := map[int]bool{}
 		good := true
-		pa.Instrs(func(i ssa.Instruction) {
-			switch x := i.(type) {
-			case *ssa.Store:
+		for k, blk := range pa {
+			for _, i := range blk.Instrs {
+				if u, ok := i.(*ssa.UnOp); ok && isCounterLoad(u) {
+					genOf[u] = gen
+				}
+				x, ok := i.(*ssa.Store)
+				if !ok {
+					continue
+				}
 				if fa, ok := x.Addr.(*ssa.FieldAddr); ok && fieldNameOf(fa) == "ID" && (core.TypeIs(fa.X.Type(), tService) || core.TypeIs(fa.X.Type(), tChar)) {
-					if pending {
-						good = false // two id stores without an increment in between
-					}
-					if isCounterLoad(x.Val) {
-						pending = true
-					} else if call, ok := x.Val.(*ssa.Call); ok && postInc(core.Callee(call)) {
-						pending = false
+					v := core.StripConv(pa.ResolveAt(k, x.Val))
+					if g, isLoad := genOf[v]; isLoad {
+						if taken[g] {
+							good = false // two ids from one counter value
+						}
+						taken[g] = true
+					} else if call, ok := v.(*ssa.Call); ok && postInc(core.Callee(call)) {
+						// helper takes and leaves a generation by itself
 					} else {
 						good = false
 					}
@@ -166,19 +178,21 @@ func c14r2(c *core.Ctx) {
 					b, isB := x.Val.(*ssa.BinOp)
 					one := false
 					if isB && b.Op == token.ADD {
-						if n, ok := core.ConstInt(b.Y); ok && n == 1 && isCounterLoad(b.X) {
-							one = true
+						if n, ok := core.ConstInt(b.Y); ok && n == 1 {
+							if g, isLoad := genOf[core.StripConv(b.X)]; isLoad && g == gen {
+								one = true
+							}
 						}
 					}
-					if !one || !pending {
+					if !one {
 						good = false
 					}
-					pending = false
+					gen++
 				}
 			}
-		})
-		if pending {
-			good = false
+		}
+		if taken[gen] {
+			good = false // the last id's value is still the counter: the next object would get it again
 		}
 		if !good {
 			badPair++
@@ -282,7 +296,11 @@ func c14r3(c *core.Ctx) {
 		inc := false
 		core.Instrs(f, func(i ssa.Instruction) {
 			if st, ok := i.(*ssa.Store); ok {
-				if _, ok := core.FieldAddrOf(st.Addr, tContainer, "idCount"); ok && reachesAfter(autoStore, st) {
+				// count++ after the id was stored, or between taking the value and storing it ( id := count; count++; a.ID = id )
+				if _, ok := core.FieldAddrOf(st.Addr, tContainer, "idCount"); ok && (reachesAfter(autoStore, st) || (instrDominates(st, autoStore) && func() bool {
+					l, isL := core.StripConv(autoStore.Val).(ssa.Instruction)
+					return isL && instrDominates(l, st)
+				}())) {
 					if b, ok := st.Val.(*ssa.BinOp); ok && b.Op == token.ADD {
 						if n, ok := core.ConstInt(b.Y); ok && n == 1 {
 							inc = true
